@@ -41,7 +41,8 @@ struct Two {
 
 fn two(tapes: &Tapes) -> Two {
     let mut t = Tape::new(&tapes.a);
-    let case = decode_case(&mut t, &super::c05::domain());
+    let dom = if tapes.small { super::c05::domain().small() } else { super::c05::domain() };
+    let case = decode_case(&mut t, &dom);
     let s = surf();
     let (a, _, sa) = serialize_docs(&case.docs, &tapes.b, &s);
     let mut tc = Tape::new(&tapes.c);
